@@ -5,6 +5,7 @@ import (
 	"bytes"
 	"encoding/json"
 	"flag"
+	"fmt"
 	"io"
 	"io/ioutil"
 	"math/rand"
@@ -48,6 +49,9 @@ func parseWith(format string, data []byte, sched []iox.Step) (res, digest string
 	var r io.Reader = iox.NewScripted(data, sched)
 	if len(sched) == 1 && sched[0].K == "bytes.Reader" {
 		r = bytes.NewReader(data) // the everyday reader: seekable, fills every read
+	}
+	if len(sched) == 1 && sched[0].K == "seekable" {
+		r = &iox.SeekableChunked{Data: data, Chunk: sched[0].N} // seekable, but with short reads
 	}
 	res, msg = run.Guard(20*time.Second, func() { s, err = readDoc(format, r) })
 	if res != "ok" {
@@ -122,6 +126,8 @@ func cmdDeliver(args []string) error {
 			// the reference: the document in a bytes.Reader; every other delivery goes through a plain io.Reader
 			// (no Seek, no ReadFrom) that hands the bytes out as scheduled
 			emit("bytes.Reader", []iox.Step{{N: n, K: "bytes.Reader"}})
+			emit("seekable-one-byte", []iox.Step{{N: 1, K: "seekable"}})
+			emit("seekable-half", []iox.Step{{N: (n+1)/2 + 1, K: "seekable"}})
 			emit("all-at-once", nil)
 			emit("all-with-eof", []iox.Step{{n, "eof"}})
 			emit("one-byte", iox.Chunks(n, 1))
@@ -304,6 +310,30 @@ func cmdFaults(args []string) error {
 	if *part == 0 {
 		longLines(k)
 		fileHelpers(k)
+		// "a writer's successful return means the complete document was handed to the destination": lists of n cues
+		// around the sizes at which a writer might batch its output; what arrived is read back and must hold n cues
+		// (Inside = it does; for STL also 1024 + 128 n bytes)
+		for _, nc := range []int{1, 2, 63, 64, 65, 127, 128, 129, 256} {
+			s := astisub.NewSubtitles()
+			for i := 0; i < nc; i++ {
+				s.Items = append(s.Items, &astisub.Item{StartAt: time.Duration(2*i) * time.Second, EndAt: time.Duration(2*i+1) * time.Second,
+					Lines: []astisub.Line{{Items: []astisub.LineItem{{Text: fmt.Sprintf("cue %d", i)}}}}})
+			}
+			for _, wf := range writeFormats {
+				cw := &iox.FailingWriter{Limit: 1 << 30}
+				var werr error
+				res, msg := run.Guard(30*time.Second, func() { werr = writeDoc(wf, s, cw) })
+				ev := ioEvent{Kind: "writeclean", Fmt: wf, Doc: fmt.Sprintf("list-of-%d", nc), Len: len(cw.Got), Res: res, Msg: msg, Items: len(cw.Got), Expect: nc}
+				if res == "ok" && werr != nil {
+					ev.Res = "err"
+				}
+				if ev.Res == "ok" {
+					back, rerr := readDoc(wf, bytes.NewReader(cw.Got))
+					ev.Inside = rerr == nil && back != nil && len(back.Items) == nc && (wf != "stl" || len(cw.Got) == 1024+128*nc)
+				}
+				k.put(ev)
+			}
+		}
 	}
 	return nil
 }
